@@ -11,9 +11,9 @@ ok=[m for m in rechecked if m['recheck']['exit']==1]
 bad=[m['id'] for m in rechecked if m['recheck']['exit']!=1]
 cross=[m for m in metas if 'cross' in m]
 new='''### 8.4 Which check catches which seeded change
-%d deliberately property-breaking changes (five per property, six for the eleven properties whose checks do not need the pipeline exploration) were written by independent sub-agents that were given
+%d deliberately property-breaking changes (five per property, seven for the eleven properties whose checks do not need the pipeline exploration) were written by independent sub-agents that were given
 only the property text and a scratch worktree of the repository (from the second wave on also a one-line description
-of the mechanisms already used, to avoid duplicates; waves 3-6 were asked for changes that manifest only under narrow
+of the mechanisms already used, to avoid duplicates; waves 3-7 were asked for changes that manifest only under narrow
 conditions, on rarely reached paths, or for inputs that a checker with small menus of typical values would not try).
 Each was confirmed by me in a fresh worktree before being kept under `seeded/<id>/` (`patch.diff`, `demo.py`,
 `meta.json`): the demonstration exits 0 on the pristine tree and non-zero with the change, the unedited repository suite
@@ -24,7 +24,7 @@ changed tree (`tools_seeded.py confirm`, `VERIF_REPO`).
 **Final detection run** (`tools_seeded.py recheck`, every change against the quick check of its property as committed):
 %d of %d re-evaluated changes are reported (exit 1 with a VIOLATION line)%s.
 
-**27 of the 101 were missed at first** (25 silently, one as a harness error, one by a check that deliberately left the clause
+**33 of the 112 were missed at first** (31 silently, one as a harness error, one by a check that deliberately left the clause
 to a sister property); in every case the oracle was right and the *driver* could not produce the behaviour, or a finding
 was identified too broadly. What was changed, by wave:
 
@@ -49,8 +49,12 @@ was identified too broadly. What was changed, by wave:
   suffix on all or none -> all 8 mixtures), C12-f (no biofuel charge below the feed side's caps), C13-f (override observed at one herd
   evaluation -> every evaluation of a complete run), C15-f (no list naming a country twice); C14-f pre-empted (custom country-table
   parameters in the deviation histories).
+* wave 7 (11, same properties): C07-g (reference read the requirement back from the species' own method), C08-g (every execution from a
+  fresh option dictionary), C10-g (one ordinary value triple, flags on -> tiny and zero-calorie quantities under all flag settings),
+  C11-g (no seed family only partly a ratio), C13-g (numeric overrides one at a time -> pairs), C15-g (runner flags fixed -> one real run
+  that saves the per-country tables).
 
-Miss rate per wave of *independent* changes against the machinery as it stood: 1/18, 2/18, 7/18, 3-5/18, 7-8/18, 6-7/11. The waves asked
+Miss rate per wave of *independent* changes against the machinery as it stood: 1/18, 2/18, 7/18, 3-5/18, 7-8/18, 6-7/11, 6/11. The waves asked
 for narrow conditions are the informative ones, and their rate did not fall: a bounded exhaustive check is only as good as its
 alphabet, and an adversary who is told to leave the alphabet finds the gaps. What they teach is recorded in section 7 (forms of
 vacuity actually met). The properties whose quick checks were never missed: C01, C02, C07, C17, C18 (C18 once pre-empted).
